@@ -203,8 +203,12 @@ static std::string build_real() {
     if (d.init_explicit) m->setInitState(1);
     for (int i = 0; i < d.n; i++) { int s = d.init_explicit ? d.n - i : i + 1; const Hook *he = h++, *hx = h++;
       ok &= m->newState(s, [he](Event e) { real_hook(he, e); G.tr += ' '; }, [hx](Event e) { real_hook(hx, e); G.tr += ' '; }); }
-    if (d.term_def) { const Hook *he = h++, *hx = h++;
-      ok &= m->newState(0, [he](Event e) { real_hook(he, e); G.tr += ' '; }, [hx](Event e) { real_hook(hx, e); G.tr += ' '; }); }
+    // definition order is part of the quantifier ("every machine definition"): with C16_TERM_LATE the user-defined terminal
+    // state 0 is created AFTER the routes/handlers that refer to it (addRoute accepts target 0 before it exists)
+    static const bool term_late = getenv("C16_TERM_LATE") != nullptr;
+    const Hook *he0 = nullptr, *hx0 = nullptr;
+    if (d.term_def) { he0 = h++; hx0 = h++;
+      if (!term_late) ok &= m->newState(0, [he0](Event e) { real_hook(he0, e); G.tr += ' '; }, [hx0](Event e) { real_hook(hx0, e); G.tr += ' '; }); }
     for (int s = 1; s <= d.n; s++) { const StateD &S = d.st[s - 1];
       for (int r = 0; r < S.nr; r++) { const Hook *hg = h++, *ha = h++; int gk = S.r[r].guard; uint8_t *ctr = &G.flip_real[k][s][r];
         StateMachine::GuardFunc gf; if (gk) gf = [hg, gk, ctr](Event e) { real_hook(hg, e); bool v = guard_value(gk, *ctr); G.tr += v ? "=1 " : "=0 "; return v; };
@@ -212,6 +216,7 @@ static std::string build_real() {
       if (S.h_ev) { const Hook *hh = h++; int ret = S.h_ret; ok &= m->addEvent(s, (int)S.h_ev, [hh, ret](Event e) { real_hook(hh, e); G.tr += ' '; return ret; }); }
       if (S.h_any != -2) { const Hook *hh = h++; int ret = S.h_any; ok &= m->addEvent(s, 0, [hh, ret](Event e) { real_hook(hh, e); G.tr += ' '; return ret; }); }
       if (G.nodes[k].sub[s] >= 0) ok &= m->setSubStateMachine(s, G.sm[G.nodes[k].sub[s]]); }
+    if (d.term_def && term_late) ok &= m->newState(0, [he0](Event e) { real_hook(he0, e); G.tr += ' '; }, [hx0](Event e) { real_hook(hx0, e); G.tr += ' '; });
     int node = (int)k;
     m->setStateChangedCallback([node](int f, int t, Event e) { Hook hc{node, 'c', f, t}; real_hook(&hc, e); G.tr += ' '; });
   }
